@@ -1,8 +1,10 @@
 (* Props/C02.v — C02: captured ops form a valid edit script old -> new.
-   Stated for Myers and LCS (alg <> Patience); the Patience instances are in
-   Proofs/PatienceCapture.v when present (see evidence theorem list). *)
+   The first block is stated for Myers and LCS (alg <> Patience); the second
+   block (c02_*_all) covers all three algorithms (Proofs/PatienceCapture.v,
+   Proofs/PatienceIdentical.v). *)
 From Similar Require Import Model.Base Model.Utils Model.Myers Model.Hooks Model.Compact Model.Capture
   Spec.Script Spec.SnakeSpec Check.Script Proofs.CheckScript Proofs.Pipeline.
+From Similar Require Import Model.TextDiff Proofs.Unique Proofs.PatienceCapture Proofs.PatienceIdentical.
 
 (* for EVERY clock, both build modes and both settings of the repair switch *)
 Theorem c02_capture_valid :
@@ -75,3 +77,86 @@ Example c02_instance :
   | _ => False
   end.
 Proof. vm_compute. split; reflexivity. Qed.
+
+(* ---------------------------------------------------------------------- *)
+(* all three algorithms (Proofs/PatienceIdentical.v).  For Patience the two *)
+(* uniqueness oracles must agree on the identical ranges (SameShift): with *)
+(* Hash/Eq implementations that contradict each other the claim fails      *)
+(* (incoherent_counterexample there) - outside the library's contract.     *)
+(* ---------------------------------------------------------------------- *)
+Theorem c02_identical_only_equal_all :
+  forall (alg : algorithm) (dl : deadline) (dbg repair : bool) (orc : oracles) (os oe ns ne : nat),
+    os <= oe -> ns <= ne -> CmpTotal (o_on orc) os oe ns ne ->
+    SegEq (o_on orc) os ns (oe - os) -> oe - os = ne - ns ->
+    (alg = Patience ->
+       SameTotal (o_oo orc) os oe /\ SameShift (o_oo orc) (o_nn orc) os ns (oe - os)) ->
+    exists c, capture_diff alg dl dbg repair orc os oe ns ne =
+              Ok (if oe =? os then [] else [Equal os ns (oe - os)], c).
+Proof. exact identical_only_equal_all. Qed.
+Print Assumptions c02_identical_only_equal_all.
+
+(* items compared by a reflexive eqb: no premise on oracles at all *)
+Theorem c02_patience_identical_items :
+  forall (A : Type) (eqb : A -> A -> bool) (old new : list A) (dl : deadline) (dbg repair : bool)
+         (os oe ns ne : nat),
+    (forall x : A, eqb x x = true) ->
+    os <= oe -> ns <= ne -> oe <= length old -> ne <= length new -> oe - os = ne - ns ->
+    (forall t : nat, t < oe - os -> nth_error new (ns + t) = nth_error old (os + t)) ->
+    exists c, capture_diff Patience dl dbg repair
+                (oracles_of_items eqb (slice_lookup old) (slice_lookup new)) os oe ns ne =
+              Ok (if oe =? os then [] else [Equal os ns (oe - os)], c).
+Proof. exact @patience_identical_items. Qed.
+Print Assumptions c02_patience_identical_items.
+
+(* the debug assertions of the crate (dbg = debug build) never change a result *)
+Theorem c02_capture_dbg_independent_all :
+  forall (alg : algorithm) (dl : deadline) (repair : bool) (orc : oracles) (os oe ns ne : nat),
+    os <= oe -> ns <= ne -> CmpTotal (o_on orc) os oe ns ne ->
+    capture_diff alg dl true repair orc os oe ns ne = capture_diff alg dl false repair orc os oe ns ne.
+Proof. exact capture_dbg_independent_all. Qed.
+Print Assumptions c02_capture_dbg_independent_all.
+
+(* ---------------------------------------------------------------------- *)
+(* validity, completion, application for ALL algorithms, every clock       *)
+(* ---------------------------------------------------------------------- *)
+Theorem c02_capture_valid_all :
+  forall (alg : algorithm) (dl : deadline) (dbg repair : bool) (orc : oracles) (os oe ns ne : nat)
+         (ops : list op) (c : ctr),
+    os <= oe -> ns <= ne -> CmpTotal (o_on orc) os oe ns ne ->
+    capture_diff alg dl dbg repair orc os oe ns ne = Ok (ops, c) ->
+    OpsLoose (o_on orc) os oe ns ne ops /\ Alternating ops.
+Proof. exact capture_valid_all. Qed.
+Print Assumptions c02_capture_valid_all.
+
+(* Patience additionally needs its two uniqueness oracles to be total *)
+Theorem c02_capture_no_panic_all :
+  forall (alg : algorithm) (dl : deadline) (dbg repair : bool) (orc : oracles) (os oe ns ne : nat),
+    os <= oe -> ns <= ne -> CmpTotal (o_on orc) os oe ns ne ->
+    (alg = Patience -> SameTotal (o_oo orc) os oe /\ SameTotal (o_nn orc) ns ne) ->
+    exists ops c, capture_diff alg dl dbg repair orc os oe ns ne = Ok (ops, c).
+Proof. exact capture_no_panic_all. Qed.
+Print Assumptions c02_capture_no_panic_all.
+
+Theorem c02_capture_apply_all :
+  forall (A : Type) (eqb : A -> A -> bool), (forall x y, eqb x y = true <-> x = y) ->
+  forall (old new : list A) (alg : algorithm) (dl : deadline) (dbg repair : bool) (orc : oracles)
+         (os oe ns ne : nat) (ops : list op) (c : ctr),
+    o_on orc = cmp_of eqb (slice_lookup old) (slice_lookup new) ->
+    os <= oe -> ns <= ne -> oe <= length old -> ne <= length new ->
+    capture_diff alg dl dbg repair orc os oe ns ne = Ok (ops, c) ->
+    apply_ops old new ops = seg new ns (ne - ns) /\
+    apply_ops new old (map invert_op ops) = seg old os (oe - os).
+Proof. exact @capture_apply_all. Qed.
+Print Assumptions c02_capture_apply_all.
+
+Theorem c02_ratio_patience :
+  forall (dl : deadline) (dbg repair : bool) (orc : oracles) (os oe ns ne : nat) (ops : list op) (c : ctr),
+    os <= oe -> ns <= ne -> CmpTotal (o_on orc) os oe ns ne ->
+    capture_diff Patience dl dbg repair orc os oe ns ne = Ok (ops, c) ->
+    matches ops = equal_total ops /\
+    equal_total ops <= Nat.min (oe - os) (ne - ns) /\
+    2 * matches ops <= oe - os + (ne - ns) /\
+    (2 * matches ops = oe - os + (ne - ns) ->
+     SegEq (o_on orc) os ns (oe - os) /\ oe - os = ne - ns).
+Proof. exact capture_ratio_patience'. Qed.
+Print Assumptions c02_ratio_patience.
